@@ -14,6 +14,17 @@ CHECKS = {
             'non-negativity, constant side, entropy bound, self score). The estimator depends only on the joint partition, so the '
             'enumerated scope is complete for those n; beyond it the claim is sampled.',
             'Trusted: the float64 reference model in vlib/refmodels.py and the stated float32 tolerance.', 'DESIGN.md §3 C01'),
+    'C02': ('Hypothesis metamorphic relation (injective relabeling) + reference model for the self-pair rule + pipeline-level renaming',
+            'Exploration: generated pairs x relabelings x correction flag must score the same; a directed generator produces the equal-sum / '
+            'equal-histogram non-identical class named in the quantifier and the corrected score is compared with the displaced-copy '
+            'reference; string frames are renamed injectively and re-scored through mixed_rank_graph (category coding).',
+            'Trusted: reference model, tolerance. Pairs where the self rule applies on one side of the relation only are excluded and counted.',
+            'DESIGN.md §3 C02'),
+    'C03': ('exhaustive small-scope enumeration + Hypothesis pairs vs reference model (literal displaced-copy definition); sampled planted-signal family',
+            'Exploration: all ordered pairs of set partitions (n<=6 quick / n<=7 thorough) and generated families are compared with '
+            'H(Y*|X)-H(Y|X) computed from the statement; corollaries (constant / identifier feature, self pair, heuristic-name flag) and the '
+            'ranking corollary over generated seeds of the planted family.',
+            'Trusted: reference model; the ranking corollary is statistical (sampled seeds).', 'DESIGN.md §3 C03'),
 }
 
 NOT_YET = 'check not built yet in this commit (work in progress; planned in DESIGN.md §3)'
